@@ -193,8 +193,11 @@ static void crash_case(vh::Run& R, const std::vector<Op>& ops, long crash_at, co
 			if (good && !ops[crashed_op].kind && !completed.count(ops[crashed_op].s)) {
 				unsigned s = ops[crashed_op].s; std::string b2 = payload(s, 1 - ops[crashed_op].pl);
 				f8String cur; bool had = p->get(s, cur);
-				ever[s].insert(b2); bool r = p->put(s, b2);
-				if (r) completed[s] = b2; else if (!had) { R.viol("further-stores-retrievable", "continuation-put-refused", tags, id, "put(" + std::to_string(s) + ") refused although get fails", "stored"); good = false; }
+				// what the interrupted number returns now (after another record was appended) must still be something stored for it
+				if (had && !(ever.count(s) && ever[s].count(cur))) { R.viol("no-foreign-bytes", "returns-bytes-never-stored-for-number", tags, id, "after a further store: get(" + std::to_string(s) + ")='" + vh::show(cur).substr(0, 30) + "'", "failure or bytes once passed to put(" + std::to_string(s) + ")"); good = false; }
+				ever[s].insert(b2); bool r = good && p->put(s, b2);
+				if (!good) { }
+				else if (r) completed[s] = b2; else if (!had) { R.viol("further-stores-retrievable", "continuation-put-refused", tags, id, "put(" + std::to_string(s) + ") refused although get fails", "stored"); good = false; }
 				else completed[s] = cur;
 			}
 			if (good) { ctl_inflight = false; if (p->put(7u, 17u)) ctl_done.push_back({ 7, 17 }); else { R.viol("further-stores-retrievable", "continuation-control-refused", tags, id, "", ""); good = false; } }
